@@ -137,6 +137,68 @@ def corrupt_gossip(cases):
     return [out[0], out[1], out[4], out[2], out[3]]
 
 
+def corrupt_future(cases):
+    c0 = cases[0]
+    out = []
+    def idx(pred):
+        return [i for i, e in enumerate(c0) if pred(e)][0]
+    c = copy.deepcopy(c0)
+    i = idx(lambda e: e["e"] == "Push" and e.get("note") == "a3-before-its-ancestors")
+    c[i]["out"] = "cached"
+    c[i]["cache"] = sorted(c[i]["cache"] + [c[i]["id"]])          # a block whose parent is neither stored nor cached is kept
+    out.append(("futureblocks-orphan-cached", c))
+    c = copy.deepcopy(c0)
+    i = idx(lambda e: e["e"] == "Push" and e.get("note") == "fork-below-finalized")
+    c[i]["out"] = "imported"                                      # a block refused by finality is stored
+    out.append(("futureblocks-refused-block-imported", c))
+    c = copy.deepcopy(c0)
+    i = idx(lambda e: e["e"] == "Round")
+    moved = [x for x in c[i]["stored"] if x not in c0[0]["stored"]][-1:]
+    c[i]["stored"] = [x for x in c[i]["stored"] if x not in moved]
+    c[i]["cache"] = sorted(c[i]["cache"] + moved)                  # the round left the last block of the cached chain behind
+    out.append(("futureblocks-chain-not-in-one-round", c))
+    edge = [i for i, e in enumerate(c0) if e["e"] == "Push" and e.get("note") == "timestamp-equals-now-plus-interval" and e["lo"] == e["hi"]]
+    if edge:
+        c = copy.deepcopy(c0)
+        c[edge[0]]["out"] = "cached"
+        c[edge[0]]["cache"] = sorted(c[edge[0]]["cache"] + [c[edge[0]]["id"]])   # timestamp = now + interval treated as future
+        out.append(("futureblocks-edge-treated-as-future", c))
+    return out
+
+
+def future_step(ctx, drifts):
+    """Growth (DESIGN section 8): pushed blocks the node cannot import yet - FutureBlocks.tla + Trace_FutureBlocks.tla."""
+    ctx.tlc_must_hold("net", "MC_FutureBlocks", cfg="MC_FutureBlocks.cfg", workers=4, timeout=900, label="future blocks: design model")
+    r = ctx.tlc("net", "MC_FutureBlocks", cfg="MC_FutureBlocks_unsorted.cfg", workers=4, timeout=600, count=False,
+                label="future blocks NEGATIVE: retry round in any order")
+    if r.timeout or "RoundComplete is violated" not in r.out:
+        raise Infra("RoundComplete is vacuous: the unsorted negative configuration did not violate it")
+    events, st = sc.run_driver(ctx, "syncsim", ["-mode", "future"] + ([] if ctx.quick else ["-deep"]), "future", timeout=600)
+    if events is None:
+        return 0
+    sc.binding_demo(ctx, events, "future", corrupt_future, module="Trace_FutureBlocks")
+    acc, d = sc.validate(ctx, events, "future", {"driver": "syncsim", "mode": "future", "seed": ctx.seed}, module="Trace_FutureBlocks")
+    drifts += d
+    fu = st["future"]
+    outs = {}
+    for v in fu["outcomes"].values():
+        outs[v] = outs.get(v, 0) + 1
+    ctx.cov["futureblocks_pushes_by_outcome"] = outs
+    ctx.cov["futureblocks_pushes"] = sum(1 for e in events if e["e"] == "Push")
+    ctx.cov["futureblocks_evictions_seen"] = sum(1 for i, e in enumerate(events) if e["e"] == "Push" and e["out"] == "cached"
+                                                 and len(e["cache"]) == 32 and i > 0 and len(events[i - 1].get("cache", [])) == 32)
+    ctx.cov["futureblocks_chain_imported_in_one_round"] = fu["chainImportedInOneRound"]
+    ctx.cov["futureblocks_edge_pushes_within_one_second"] = fu["edgePushesInOneSecond"]
+    ctx.cov["futureblocks_cache_at_end"] = fu["cacheAtEnd"]
+    ctx.cov["traces_validated_against_impl"] += acc
+    if fu["cacheAtEnd"]:
+        ctx.cov.setdefault("observations", []).append(
+            "future blocks: a cached block that turns out invalid (or refused) when its time comes is never dropped - it is retried every "
+            "round and occupies one of the 32 slots until it is evicted at random; a block dropped or evicted is recovered by sync only")
+    ctx.sample({"futureblocks_first_pushes": [e for e in events if e["e"] == "Push"][:3]})
+    return ctx.cov["futureblocks_pushes"]
+
+
 def gossip_step(ctx, drifts):
     """Growth (DESIGN section 8): block / tx propagation, Gossip.tla + Trace_Gossip.tla on real Communicators."""
     q = ctx.quick
@@ -346,7 +408,10 @@ def run(ctx):
     # ---- 5. growth: block / tx propagation between peers -----------------------------------------------------
     n_gossip = gossip_step(ctx, drifts)
 
-    ctx.cov["evaluations"] = n_anc + n_dl + n_sync + n_msg + n_gossip + n_bft
+    # ---- 6. growth: pushed blocks the node cannot import yet ---------------------------------------------------
+    n_future = future_step(ctx, drifts)
+
+    ctx.cov["evaluations"] = n_anc + n_dl + n_sync + n_msg + n_gossip + n_bft + n_future
     ctx.cov["distinct_nontrivial"] = (ctx.cov.get("ancestor_distinct_probe_sequences", 0) + n_dl_fault +
                                       ctx.cov.get("sync_pairs_converged", 0))
     ctx.cov["rule"] = ("evaluation = one run of real code: one findCommonAncestor instance (H,A,R), one download of a fresh node, "
